@@ -54,7 +54,7 @@ def run(ctx):
     sx = [l.strip() for l in open(p) if l.strip() and not l.startswith("#")] if os.path.exists(p) else []
     gens = []
     for _ in range(nprog):
-        g = progs.Gen(rng.fork())
+        g = progs.Gen(rng.fork(), feat=dict(refassign=True))
         sx.append(g.program(rng.range(2, 6)))
         gens.append(g)
     for g in gens:
